@@ -47,6 +47,12 @@ func (s resendState) FixMsgIn(session *session, msg *Message) (nextState session
 		return
 	}
 
+	if next, ok := nextState.(resendState); ok && s.messageStash == nil {
+		// The first early message of this recovery (e.g. after a gap detected on the Logon)
+		// was stashed in a map created for nextState; keep it.
+		s.messageStash = next.messageStash
+	}
+
 	if s.currentResendRangeEnd != 0 && s.currentResendRangeEnd < session.store.NextTargetMsgSeqNum() &&
 		session.store.NextTargetMsgSeqNum() <= s.resendRangeEnd {
 		nextResendState, err := session.sendResendRequest(session.store.NextTargetMsgSeqNum(), s.resendRangeEnd)
